@@ -8,6 +8,8 @@ Functions under contract (real source of /repo/fastparquet/api.py, extracted by 
   ParquetFile.to_pandas(..., row_filter=mask | True | False)   cutting the selection into per-row-group pieces,
                                                  the wrong-length check, the allocated size, what each row-group read gets
   ParquetFile.count(filters, row_filter=True)    evaluates the same selection as to_pandas
+  ParquetFile.read_row_group_file(rg, ..)        stand-alone branch (assign=None; row_filter=[filter list] | False) and the
+                                                 pass-through branch used by to_pandas
 
 MODEL
   _column_filter.  A boolean numpy array is a proof-script OBJECT holding its value at ONE witness row r0
@@ -90,6 +92,21 @@ MODEL
       to_pandas.row_group_skipped_only_if_nothing_selected
   count.  count.same_selection_as_to_pandas (same three calls, same arguments after binding to parameter names) and
   count.returns_selection_count.
+  read_row_group_file (same abstract objects: row group k with num_rows(k), the selection a Mask with COUNT_TRUE, calls on
+  self recorded after binding to the real signatures; core.read_row_group recorded the same way from core.py's signature).
+  [filters] assign=None, row_filter = a non-empty filter list (the documented per-row-group mode), [none] assign=None,
+  row_filter=False, [assigned] assign = views, row_filter = a mask piece | None (what to_pandas hands over):
+      read_row_group_file.standalone.selection_is_column_filter_on_filter_columns_frame   mask = _column_filter(read_row_group_file(rg,
+                                                            _columns_from_filters(row_filter), index=False, row_filter=False, assign=None), filters=row_filter)
+      read_row_group_file.standalone.selection_length_is_row_group_rows
+      read_row_group_file.standalone.allocated_size_is_selection_count[..]   pre_allocate gets COUNT_TRUE(mask); rg.num_rows without a filter list
+      read_row_group_file.standalone.allocates_the_requested_columns[..]
+      read_row_group_file.standalone.mask_dropped_only_if_every_row_selected  the read is unfiltered only where COUNT_TRUE(mask) == num_rows
+      read_row_group_file.standalone.read_gets_the_mask[..]                   core.read_row_group(row_filter = the mask | False once dropped)
+      read_row_group_file.standalone.read_fills_the_allocated_frame[..]       one read, of THIS row group, after the allocation, assign = its views
+      read_row_group_file.standalone.returns_the_allocated_frame[..]
+      read_row_group_file.assigned.{no_selection_evaluated, no_allocation, read_fills_the_views_handed_over, read_gets_the_mask, returns_nothing}
+  (the recorded stand-alone unfiltered call used inside [filters] returns a frame of num_rows(k) rows: that is [none]'s result.)
   columns_from_filters.exactly_nonpartition_filter_columns: a name is in the result iff it is the column of an atom of
   `filters` and not a partition column (comprehension semantics instantiated at the witness atom).
 
@@ -157,6 +174,10 @@ ASSUMED = [
     "numpy: mask[a:b] for 0 <= a <= b <= len(mask) is that segment; piece.sum() is COUNT_TRUE(a, b); COUNT_TRUE is additive over "
     "a tiling (sum of the piece counts == mask.sum()); COUNT_TRUE(a, b) == b - a iff the segment is all True",
     "pre_allocate / read_row_group_file / open / check_column_names are the only effects of to_pandas on the way to the reads",
+    "read_row_group_file: mask.all() is COUNT_TRUE(mask) == len(mask), mask.any() is COUNT_TRUE(mask) > 0, 0 <= COUNT_TRUE(mask) <= len(mask); "
+    "pre_allocate(size, ..) returns (frame of `size` rows, its views); core.read_row_group(.., assign=views, row_filter=mask | False) fills "
+    "the views with the rows of the row group that the mask selects (all rows for False / None): C13's page-level contract (props/_pagemask) "
+    "and the bounded layer; the recorded stand-alone unfiltered read returns a frame of rg.num_rows rows (its own [none] obligations)",
 ]
 
 
@@ -293,7 +314,7 @@ class RFEngine(Engine):
         self.inline_stack.append(name)
         try:
             outs = self.run(name, p.fork(), args, kw)
-        except Unsupported as ex:
+        except Exception as ex:         # Unsupported, or an engine limitation met inside the helper (z3 cast, ..): out of reach
             del self.oblig[snap[0]:]
             self.loop_ord, self.cur_func = snap[1], snap[2]
             if self.or_loops is not None:
@@ -305,7 +326,7 @@ class RFEngine(Engine):
                 del res.order[n:]
                 for k, ln in lens.items():
                     del res.d[k][ln:]
-            self.not_inlined[name] = str(ex)
+            self.not_inlined[name] = f"{type(ex).__name__}: {ex}"
             return None
         finally:
             self.inline_stack.pop()
@@ -1517,6 +1538,10 @@ class Mask(H):
     def call_method(self, eng, p, name, args, kw, node):
         if name == "sum" and not args and not kw:
             return [(p, PyI(self.CT(0, self.L)))]
+        if name == "all" and not args and not kw:         # COUNT_TRUE(a, b) == b - a iff the segment is all True
+            return [(p, PyB(self.CT(0, self.L) == self.L))]
+        if name == "any" and not args and not kw:
+            return [(p, PyB(self.CT(0, self.L) > 0))]
         raise Unsupported("mask." + name)
 
     def isinstance(self, eng, p, tn):
@@ -1536,6 +1561,10 @@ class MaskPiece(H):
     def call_method(self, eng, p, name, args, kw, node):
         if name == "sum" and not args and not kw:
             return [(p, PyI(self.mask.CT(self.lo, self.hi)))]
+        if name == "all" and not args and not kw:
+            return [(p, PyB(self.mask.CT(self.lo, self.hi) == self.hi - self.lo))]
+        if name == "any" and not args and not kw:
+            return [(p, PyB(self.mask.CT(self.lo, self.hi) > 0))]
         raise Unsupported("mask piece." + name)
 
     def is_none(self, eng, p):
@@ -1658,11 +1687,15 @@ def desc(v):
     return ("value", type(v).__name__)
 
 
-def _bind(funcs, method, args, kw):
+def _is_false(v):
+    return isinstance(v, PyB) and z3.is_false(z3.simplify(v.z))
+
+
+def _bind(funcs, method, args, kw, qual="ParquetFile.", skip=1):
     """arguments bound to the parameter names of the REAL signature -> {param: descriptor-ready value}"""
-    f = funcs["ParquetFile." + method]
+    f = funcs[qual + method]
     a = f.tree.args
-    names = [x.arg for x in a.args][1:]
+    names = [x.arg for x in a.args][skip:]
     defaults = dict(zip([x.arg for x in a.args][len(a.args) - len(a.defaults):], a.defaults))
     out = {}
     for i, n in enumerate(names):
@@ -1732,6 +1765,13 @@ class PF2(H):
                 r = Tup([Opaque("out_frame"), Custom(Views())])
             else:
                 r = NONE
+                if isinstance(b["assign"], NoneV):
+                    # stand-alone read (assign=None) returns the frame it allocates; unfiltered: one row per row of the row group
+                    # (contract proved by read_row_group_file.standalone.*[none])
+                    n = None
+                    if isinstance(b["rg"], Custom) and isinstance(b["rg"].h, RGAbs) and _is_false(b["row_filter"]):
+                        n = b["rg"].h.rgl.NR(b["rg"].h.k)
+                    r = Custom(CallResult(d, n))
                 p.ghost.setdefault("reads", []).append(b)
             tr.append((name, b, r))
             return [(p, r)]
@@ -2050,9 +2090,169 @@ def run_count(ctx, funcs, timeout):
 
 
 # =========================================================================================================================
+# PART 4 - read_row_group_file: the stand-alone branch (assign is None) with the documented per-row-group mode
+# row_filter=[list of filters], and the pass-through branch used by to_pandas (assign given)
+# =========================================================================================================================
+def run_read_row_group_file(ctx, funcs, timeout, mode):
+    """mode 'filters': assign=None, row_filter = a non-empty filter list; 'none': assign=None, row_filter=False;
+    'assigned': assign = views, row_filter = a mask piece or None (what to_pandas hands over)"""
+    res = Results()
+    pre = "read_row_group_file." + ("assigned" if mode == "assigned" else "standalone")
+    rgl = RGList("file")
+    k = z3.Int("k_this_row_group")
+    rg = RGAbs(rgl, k)
+    NRk = rgl.NR(k)
+    filters = FiltersObj(z3.BoolVal(True))
+    pf = PF2(funcs, rgl, rgl, filters)
+    core_funcs, _, _ = parse_module("fastparquet/core.py")
+
+    def h_core_read(eng, p, args, kw, node):
+        b = _bind(core_funcs, "read_row_group", args, kw, qual="", skip=0)
+        p.ghost.setdefault("trace", []).append(("core.read_row_group", b, None))
+        return [(p, NONE)]
+    eng = RFEngine(funcs=funcs, handlers={"sum": _h_sum, "core.read_row_group": h_core_read}, opaque_calls=True)
+    eng.res, eng.timeout, eng.mode = res, timeout, mode
+    p = Path()
+    p.pc += [0 <= k, k < rgl.N]
+    p.axioms += rgl.facts(k)
+    views_arg = Views()
+    piece = Mask(NRk, "row_group_mask_argument", origin="ROW_GROUP_MASK_ARGUMENT")
+    col_arg, cat_arg, idx_arg = Opaque("columns_arg"), Opaque("categories_arg"), Opaque("index_arg")
+    variants = {"filters": [("", Custom(filters), NONE)], "none": [("", PyB(False), NONE)],
+                "assigned": [("mask", Custom(piece), Custom(views_arg)), ("no mask", NONE, Custom(views_arg))]}[mode]
+    n_ret = 0
+    for vname, rf_arg, assign_arg in variants:
+        kwargs = {"rg": Custom(rg), "columns": col_arg, "categories": cat_arg, "index": idx_arg, "assign": assign_arg,
+                  "partition_meta": Opaque("partition_meta_arg"), "row_filter": rf_arg, "infile": Opaque("infile_arg")}
+        outs = eng.run("ParquetFile.read_row_group_file", p.fork(), [Custom(pf)], kwargs)
+        from vc import backends
+        for ob in eng.oblig:
+            st, be, secs, m = backends.discharge(ob, timeout)
+            res.add(f"{pre}.{ob.name.split('.')[-1].split('@')[0]}[{mode}]", st, {"z3_model": str(m)[:300], "line": ob.lineno} if m is not None else None,
+                    secs, be, ob.note or ob.kind)
+        eng.oblig = []
+        for q in outs:
+            if q.ctl[0] != "ret":
+                continue            # check_categories may raise TypeError for categories that were not stored as such: not this property
+            n_ret += 1
+            _rrgf_post(eng, res, q, mode, pre, rg, NRk, filters, col_arg, rf_arg, assign_arg, timeout)
+    ctx.vacuity["covers"] += n_ret
+    if n_ret == 0:
+        ctx.engine_error(f"read_row_group_file[{mode}]: no returning path")
+    return res
+
+
+def _rrgf_post(eng, res, q, mode, pre, rg, NRk, filters, col_arg, rf_arg, assign_arg, timeout):
+    tr = q.ghost.get("trace", [])
+
+    def same_rg(v):
+        return isinstance(v, Custom) and isinstance(v.h, RGAbs) and v.h.rgl is rg.rgl and z3.eq(v.h.k, rg.k)
+    sel_calls = [t for t in tr if t[0] in ("_columns_from_filters", "read_row_group_file", "to_pandas", "_column_filter")]
+    pa = [t for t in tr if t[0] == "pre_allocate"]
+    reads = [t for t in tr if t[0] == "core.read_row_group"]
+    order = [t[0] for t in tr if t[0] in ("pre_allocate", "core.read_row_group")]
+    sel = None
+    if mode == "filters":
+        nm = f"{pre}.selection_is_column_filter_on_filter_columns_frame"
+        det = "row_filter=[filters], assign=None: the mask is _column_filter(read_row_group_file(rg, _columns_from_filters(row_filter), index=False, " \
+              "row_filter=False) [stand-alone, unfiltered read of THIS row group], filters=row_filter) - evaluated once"
+        ok = [t[0] for t in sel_calls] == ["_columns_from_filters", "read_row_group_file", "_column_filter"]
+        why = None if ok else "calls: " + str([t[0] for t in sel_calls])
+        if ok:
+            c_cs, c_rd, c_cf = sel_calls
+            checks = [
+                ("_columns_from_filters gets the filter list", isinstance(c_cs[1]["filters"], Custom) and c_cs[1]["filters"].h is filters),
+                ("the frame is read from THIS row group", same_rg(c_rd[1]["rg"])),
+                ("the frame holds the filter columns", c_rd[1]["columns"] is c_cs[2]),
+                ("the frame is read unfiltered", _is_false(c_rd[1]["row_filter"])),
+                ("the frame is read without index (index=False)", _is_false(c_rd[1]["index"])),
+                ("the frame is read stand-alone (assign=None)", isinstance(c_rd[1]["assign"], NoneV)),
+                ("_column_filter gets that frame", c_cf[1]["df"] is c_rd[2]),
+                ("_column_filter gets the filter list", isinstance(c_cf[1]["filters"], Custom) and c_cf[1]["filters"].h is filters),
+            ]
+            bad = [w for w, c in checks if not c]
+            ok, why = not bad, "; ".join(bad)
+            sel = c_cf[2].h if isinstance(c_cf[2], Custom) and isinstance(c_cf[2].h, Mask) else None
+        res.add(nm, PROVED if ok else REFUTED, None if ok else {"not": why}, 0.0, "trace", det)
+        if sel is not None:
+            q.axioms += [0 <= sel.CT(0, sel.L), sel.CT(0, sel.L) <= sel.L]
+            st, m, secs = solve([*q.pc, *q.axioms, sel.L != NRk], timeout)
+            res.add(f"{pre}.selection_length_is_row_group_rows", st, {"len_selection": _mv(m, sel.L), "num_rows": _mv(m, NRk)} if m is not None else None,
+                    secs, "z3", "the mask has one entry per row of the row group (frame of the unfiltered stand-alone read)")
+    else:
+        nm = f"{pre}.no_selection_evaluated[{mode}]"
+        res.add(nm, PROVED if not sel_calls else REFUTED, None if not sel_calls else {"calls": [t[0] for t in sel_calls]}, 0.0, "trace",
+                "no filter list: no filter frame is read and no predicate evaluated")
+    # ---- allocation -------------------------------------------------------------------------------------------------------
+    if mode == "assigned":
+        res.add(f"{pre}.no_allocation", PROVED if not pa else REFUTED, None if not pa else {"pre_allocate_calls": len(pa)}, 0.0, "trace",
+                "assign given (called from to_pandas): the views handed over are filled, nothing is allocated")
+    else:
+        nm = f"{pre}.allocated_size_is_selection_count[{mode}]"
+        det = "pre_allocate(size): size == COUNT_TRUE(mask) for a filter list, == rg.num_rows when no filter list is given"
+        want = NRk if mode == "none" else (sel.CT(0, sel.L) if sel is not None else None)
+        if len(pa) != 1:
+            res.add(nm, REFUTED, {"pre_allocate_calls": len(pa)}, 0.0, "trace", det)
+        elif want is None or not isinstance(pa[0][1]["size"], (PyI, PyB)):
+            res.add(nm, REFUTED if want is not None and not isinstance(pa[0][1]["size"], Opaque) else UNKNOWN, {"size": str(desc(pa[0][1]["size"]))[:200]}, 0.0, "trace", det)
+        else:
+            size = eng.as_int(pa[0][1]["size"])
+            st, m, secs = solve([*q.pc, *q.axioms, size != want], timeout)
+            res.add(nm, st, {"size": _mv(m, size), "expected": _mv(m, want), "num_rows": _mv(m, NRk)} if m is not None else None, secs, "z3", det)
+            ctx_cols = pa[0][1]["columns"] is col_arg
+            res.add(f"{pre}.allocates_the_requested_columns[{mode}]", PROVED if ctx_cols else REFUTED, None if ctx_cols else {"columns": str(desc(pa[0][1]["columns"]))[:200]},
+                    0.0, "trace", "pre_allocate gets the `columns` argument (not the filter columns)")
+    # ---- the read ---------------------------------------------------------------------------------------------------------
+    nm_r = f"{pre}.read_gets_the_mask[{mode}]"
+    det_r = {"filters": "core.read_row_group gets row_filter = the mask (or False / None once it was dropped)",
+             "none": "core.read_row_group gets row_filter=False", "assigned": "core.read_row_group gets the row_filter argument unchanged"}[mode]
+    nm_f = f"{pre}.read_fills_the_allocated_frame[{mode}]" if mode != "assigned" else f"{pre}.read_fills_the_views_handed_over"
+    det_f = "exactly one core.read_row_group, of THIS row group, after the allocation, with assign = the views " + \
+            ("pre_allocate returned" if mode != "assigned" else "given") + " and the `columns` argument"
+    if len(reads) != 1:
+        res.add(nm_f, REFUTED, {"core.read_row_group_calls": len(reads)}, 0.0, "trace", det_f)
+        return
+    rb = reads[0][1]
+    views = pa[0][2].items[1] if (len(pa) == 1 and isinstance(pa[0][2], Tup)) else None
+    want_views = assign_arg if mode == "assigned" else views
+    bad = [w for w, c in [("row group", same_rg(rb["rg"])), ("assign", want_views is not None and rb["assign"] is want_views), ("columns", rb["columns"] is col_arg),
+                          ("order", order == (["core.read_row_group"] if mode == "assigned" else ["pre_allocate", "core.read_row_group"]))] if not c]
+    res.add(nm_f, PROVED if not bad else REFUTED, None if not bad else {"wrong": bad, "effects": order}, 0.0, "trace", det_f)
+    rf = rb["row_filter"]
+    dropped = _is_false(rf) or isinstance(rf, NoneV)
+    if mode == "filters":
+        is_mask = sel is not None and isinstance(rf, Custom) and rf.h is sel
+        res.add(nm_r, PROVED if (is_mask or dropped) else UNKNOWN if isinstance(rf, Opaque) else REFUTED,
+                None if (is_mask or dropped) else {"row_filter": str(desc(rf))[:200]}, 0.0, "trace", det_r)
+        nm_d = f"{pre}.mask_dropped_only_if_every_row_selected"
+        det_d = "the read is unfiltered (row_filter False / None) only on a path where COUNT_TRUE(mask) == rg.num_rows"
+        if dropped and sel is not None:
+            st, m, secs = solve([*q.pc, *q.axioms, sel.CT(0, sel.L) != NRk], timeout)
+            res.add(nm_d, st, {"selected": _mv(m, sel.CT(0, sel.L)), "num_rows": _mv(m, NRk)} if m is not None else None, secs, "z3", det_d)
+        elif dropped:
+            res.add(nm_d, UNKNOWN, None, 0.0, "engine", det_d + " - not decided: no selection of the model on this path")
+        else:
+            res.add(nm_d, PROVED, None, 0.0, "trace", det_d + " (mask kept on this path)")
+    elif mode == "none":
+        res.add(nm_r, PROVED if dropped else REFUTED, None if dropped else {"row_filter": str(desc(rf))[:200]}, 0.0, "trace", det_r)
+    else:
+        same = rf is rf_arg or (isinstance(rf, NoneV) and isinstance(rf_arg, NoneV))
+        res.add(nm_r, PROVED if same else REFUTED, None if same else {"row_filter": str(desc(rf))[:200]}, 0.0, "trace", det_r)
+    # ---- the result -------------------------------------------------------------------------------------------------------
+    v = q.ctl[1]
+    if mode == "assigned":
+        res.add(f"{pre}.returns_nothing", PROVED if isinstance(v, NoneV) else REFUTED, None if isinstance(v, NoneV) else {"returned": str(desc(v))[:200]}, 0.0, "trace")
+    else:
+        frame = pa[0][2].items[0] if (len(pa) == 1 and isinstance(pa[0][2], Tup)) else None
+        ok = frame is not None and (v is frame or (isinstance(v, Opaque) and isinstance(frame, Opaque) and v.tag == frame.tag))
+        res.add(f"{pre}.returns_the_allocated_frame[{mode}]", PROVED if ok else REFUTED, None if ok else {"returned": str(desc(v))[:200]}, 0.0, "trace",
+                "the frame returned is the one pre_allocate returned (filled through its views)")
+
+
+# =========================================================================================================================
 def check(ctx, timeout):
     funcs, tree, src = parse_module("fastparquet/api.py")
-    for m in ("_column_filter", "_columns_from_filters", "to_pandas", "count"):
+    for m in ("_column_filter", "_columns_from_filters", "to_pandas", "count", "read_row_group_file"):
         f = funcs["ParquetFile." + m]
         ctx.function("api.ParquetFile." + m, f.sha, f.report)
     RFEngine.all_inlined = set()
@@ -2079,6 +2279,8 @@ def check(ctx, timeout):
     for mode in ("mask", "filters", "none"):
         guarded(f"to_pandas[{mode}]", run_to_pandas, ctx, funcs, timeout, mode)
     guarded("count", run_count, ctx, funcs, timeout)
+    for mode in ("filters", "none", "assigned"):
+        guarded(f"read_row_group_file[{mode}]", run_read_row_group_file, ctx, funcs, timeout, mode)
     for name in sorted(RFEngine.all_inlined):
         ctx.function("api." + name, funcs[name].sha, funcs[name].report)
     return out
@@ -2191,6 +2393,28 @@ def replay_native(name, model):
             fn = os.path.join(d, "t.parq")
             fp.write(fn, df, row_group_offsets=[0, 3, 8])
             pf = fp.ParquetFile(fn)
+            if fam == "read_row_group_file":
+                # stand-alone per-row-group reads: row_filter=[filter list] and row_filter=False
+                fs = [[("x", ">", 2), ("x", "<", 10)], [[("x", "<", 3)], [("y", "<", 3.0)]], [("x", "in", [1, 4, 9, 12])], [("x", ">", 11)], [("x", ">", 0)],
+                      [("x", ">=", 4), ("x", "<=", 8)], [("s", "==", "s05")]]
+                offs = [0, 3, 8, 12]
+                for j, rg in enumerate(pf.row_groups):
+                    part = df.iloc[offs[j]:offs[j + 1]].reset_index(drop=True)
+                    for f in [False] + fs + [_as_lists(f) for f in fs[:3]]:
+                        want = part[_oracle(part, {}, f)] if f else part
+                        for cols in (["x", "y", "s"], ["s"]):
+                            try:
+                                got = pf.read_row_group_file(rg, cols, None, row_filter=f)
+                                if len(got) != len(want) or any(got[c].tolist() != want[c].tolist() for c in cols):
+                                    bad.append(f"read_row_group_file(row group {j} (x={part.x.tolist()}), {cols}, None, row_filter={f!r}) -> {len(got)} rows "
+                                               f"{cols[-1]}={got[cols[-1]].tolist()}, the satisfying rows are {cols[-1]}={want[cols[-1]].tolist()}")
+                            except Exception as ex:
+                                bad.append(f"read_row_group_file(row group {j}, {cols}, None, row_filter={f!r}) raised {type(ex).__name__}: {ex}")
+                import shutil
+                shutil.rmtree(d, ignore_errors=True)
+                if bad:
+                    return True, f"confirmed natively ({len(bad)} concrete mismatches), e.g. " + bad[0][:400]
+                return False, "no concrete mismatch in the native battery of this family"
             rng = np.random.RandomState(0)
             masks = [np.zeros(12, bool), np.ones(12, bool), np.arange(12) % 2 == 0, np.arange(12) >= 8, np.arange(12) < 3, np.arange(12) == 3,
                      np.isin(np.arange(12), [0, 2, 3, 7, 8, 11])] + [rng.rand(12) < 0.5 for _ in range(4)]
